@@ -5,7 +5,7 @@
    literals per manual 3.1), GV.Pack.NumStrModel. *)
 From Coq Require Import ZArith List.
 From GV Require Import Pack.NumStrModel Pack.NumStrProofs Pack.Model Pack.Bytes Pack.IntRound Pack.Lockstep Pack.Total
-  Pack.QuoteModel Pack.QuoteProofs Pack.QuoteRound.
+  Pack.QuoteModel Pack.QuoteProofs Pack.QuoteRound Pack.SizeAgree Pack.FmtModel Pack.FmtProofs.
 Import ListNotations.
 Open Scope Z_scope.
 
@@ -90,3 +90,24 @@ Print Assumptions C17_tonumber_tostring_int.
 Theorem C17_digits_denote : forall b up n, 2 <= b <= 36 -> 0 <= n -> parse_digits b (digits up b n) 0 = Some n.
 Proof. intros; now apply parse_digits_digits. Qed.
 Print Assumptions C17_digits_denote.
+
+(* string.packsize(fmt) = #string.pack(fmt, ...) whenever both succeed (fixed-size formats);
+   modulo 2^64 because PackSize counts in a Go uint *)
+Theorem C17_packsize_agrees : forall fmt vs out packed n,
+  pack fmt vs = POk out packed -> packsize fmt = SOk n -> n = Model.len out mod W.
+Proof. exact packsize_agrees. Qed.
+Print Assumptions C17_packsize_agrees.
+
+(* %d %i %u %x %X %o with flags, width and precision: format.go (translation to Go verbs, Go's
+   fmtInteger/pad, and the C-style rendering added for '#' and for an explicit sign with precision 0
+   and value 0) against ISO C printf (c_fmt), for every flag combination C defines (c_defined),
+   every width, every precision and every integer argument. *)
+Theorem C17_format_int_directives : forall c sp n,
+  c_defined c sp = true -> go_fmt c sp n = c_fmt c sp n.
+Proof. exact format_int_directives. Qed.
+Print Assumptions C17_format_int_directives.
+
+Theorem C17_format_c_directive : forall sp n,
+  prec sp = None -> zero sp = false -> go_fmt_c sp n = c_fmt_c sp n.
+Proof. exact format_c_directive. Qed.
+Print Assumptions C17_format_c_directive.
